@@ -17,14 +17,13 @@ func RunTake[A any](ctx context.Context, n int, s *State, g func(A) Goal) []any 
 func Run[A any](ctx context.Context, s *State, g func(A) Goal) chan any {
 	var v A
 	s, v = NewVar[A](s)
-	key, _ := s.CastVar(v)
 	ss := NewStreamForGoal(ctx, g(v), s)
 	res := make(chan any, 0)
 	// rw finds rewrites for the first introduced variable.
 	// This means it rewrites all substitutions for the first introduced variable.
 	// For any variables without substitutions, it adds a placeholder value.
 	rw := func(s *State) any {
-		return rewrite(key, s)
+		return rewrite(v, s)
 	}
 	go func() {
 		defer close(res)
